@@ -72,6 +72,14 @@ def cases(chk):
     cs.append({"gen": "fast", "via": "direct", "cfg": "f_edge_tri", "jds": [(1, 1), (1, 1), (1, 1), (1, 0)],
                "pre_jds": [(1, 1), (1, 1), (1, 1), (1, 0)], "pre_seed": 5})
     cs.append({"gen": "fast", "via": "main", "cfg": "f_edge_tri", "jds": [(2, 2), (1, 1), (1, 0)], "pre_jds": [(1, 1), (1, 1), (0, 1)], "pre_seed": 5})
+    # ... for a second graph after the caller edited ITS list of joint degrees in place between the two calls (another sequence,
+    # also of another length), and after an earlier call that was aborted by a raising build callback
+    for pre, p in (([1, 1, 1, 1], [1, 1, 1, 1, 1, 1]), ([2, 2], [1, 1, 1, 1]), ([1, 1, 1, 1, 1, 1], [2, 1, 1]), ([1, 1], [2, 2])):
+        for gen, cname in (("fast", "f_edge"), ("motifs", "c_bare"), ("network", "f_edge")):
+            cs.append({"gen": gen, "via": "direct", "cfg": cname, "jds": [(d,) for d in p], "pre_jds": [(d,) for d in pre], "pre_seed": 13,
+                       "pre_same_list": True})
+            cs.append({"gen": gen, "via": "direct", "cfg": cname, "jds": [(d,) for d in p], "pre_jds": [(d,) for d in pre], "pre_seed": 17,
+                       "pre_fault": 2})
     # two-topology products: independence across topologies (joint table is a product)
     cs.append({"gen": "fast", "via": "direct", "cfg": "f_edge_tri", "jds": [(1, 1), (1, 1), (1, 1), (1, 0)]})
     cs.append({"gen": "fast", "via": "direct", "cfg": "f_edge_tri", "jds": [(2, 1), (1, 2), (1, 0)]})
